@@ -140,6 +140,9 @@ fn main() {
         for b in &bytes {
             hex.push_str(&format!("{b:02x}"));
         }
-        println!("OUT {} {} {} | {}", id + k, bytes.len(), hex, i.desc);
+        // one write call per result line: seeds of a Miri many-seeds run share the process's stdout
+        use std::io::Write;
+        let line = format!("OUT {} {} {} | {}\n", id + k, bytes.len(), hex, i.desc);
+        std::io::stdout().write_all(line.as_bytes()).expect("stdout");
     }
 }
